@@ -137,6 +137,13 @@ class Report(object):
     def finish(self):
         known = [k for k in load_known() if k.get('property') == self.pid and k.get('status') == 'known']
         rdir = outdir(self.pid, 'replay')
+        # the replay files of earlier runs of this check go: what is in the directory afterwards belongs to this run
+        for old in os.listdir(rdir):
+            if old.endswith('.json'):
+                try:
+                    os.remove(os.path.join(rdir, old))
+                except OSError:
+                    pass
         reported_known = {}
         unknown = []
         for v in self.violations:
